@@ -110,6 +110,7 @@ Alu(fn, y, x) ==
               [] fn = "xor" -> IF y.v >= 0 /\ x.v >= 0 THEN Pub(y.v ^^ x.v) ELSE Unk
               [] fn = "shl" -> IF x.v <= 20 /\ y.v >= 0 /\ y.v < 1024 THEN Pub(y.v * (2 ^ x.v)) ELSE Unk
               [] fn = "shr" -> IF y.v >= 0 /\ x.v < 31 THEN Pub(y.v \div (2 ^ x.v)) ELSE Unk
+              [] OTHER -> Unk        \* rotates, multiplies, bit scans ...: a public value the machine does not compute
   ELSE IF y.t = "ptr" /\ x.t = "pub" /\ fn = "add" THEN Ptr(y.r, y.v + x.v)
   ELSE IF y.t = "ptr" /\ x.t = "pub" /\ fn = "sub" THEN Ptr(y.r, y.v - x.v)
   ELSE IF y.t = "pub" /\ x.t = "ptr" /\ fn = "add" THEN Ptr(x.r, y.v + x.v)
@@ -206,6 +207,13 @@ Step ==
                    res == IF same THEN Pub(0) ELSE Alu(ins.fn, ry[1], rx[1])
                    s2 == Write(ry[2], ins.b, res, ins.w, ln)
                IN Commit([s2 EXCEPT !.fl = [k |-> "alu", a |-> res, b |-> Pub(0)]], pc + 1) /\ UNCHANGED nsb
+          [] ins.cl = "cmov" ->       \* CMOVcc / SETcc: pure data flow from the operands AND the flags
+               LET ra == IF ins.a.k = "n" THEN <<Pub(0), s>> ELSE Read(s, ins.a, ins.w, ln)
+                   rb == Read(ra[2], ins.b, ins.w, ln)
+                   t == JoinT(JoinT(Taint(ra[1]), Taint(rb[1])),
+                              IF s.fl.k = "none" THEN "undef" ELSE JoinT(Taint(s.fl.a), Taint(s.fl.b)))
+                   val == IF t = "sec" THEN Sec ELSE IF t = "undef" THEN Undef ELSE Unk
+               IN Commit(Write(rb[2], ins.b, val, ins.w, ln), pc + 1) /\ UNCHANGED nsb
           [] ins.cl = "vec" ->
                LET ra == Read(s, ins.a, ins.w, ln)
                    rc == IF ins.c.k = "n" THEN <<Unk, ra[2]>> ELSE Read(ra[2], ins.c, ins.w, ln)
